@@ -279,19 +279,27 @@ func inLoop(f *FuncInfo, n ast.Node) bool {
 	return found
 }
 
-// indexPairing checks, in fn, that every assignment M[k] = R into an int-valued index map directly follows
-// `U = append(U, x)` in the same block and that R is len(U) − 1 (the position x was appended at).
+// indexPairing checks, in fn, that every assignment M[k] = R into an int-valued index map is adjacent, in the same statement
+// list, to `U = append(U, x)` and records the position x is appended at: len(U) − 1 when the append comes directly before,
+// len(U) when it comes directly after (linear forms, so 1 subtracted on either side or written as -1+len(U) is the same).
 // Returns the number of pairs and a description of the first violation ("" when fine).
 func indexPairing(info *types.Info, fn *FuncInfo) (int, string, token.Pos) {
 	n := 0
 	bad := ""
 	var badPos token.Pos
-	ast.Inspect(fn.Body(), func(nd ast.Node) bool {
-		blk, ok := nd.(*ast.BlockStmt)
-		if !ok {
-			return true
+	appendOf := func(st ast.Stmt) (string, bool) {
+		as, ok := st.(*ast.AssignStmt)
+		if !ok || len(as.Lhs) != 1 || len(as.Rhs) != 1 {
+			return "", false
 		}
-		for i, st := range blk.List {
+		call, ok := unparen(as.Rhs[0]).(*ast.CallExpr)
+		if !ok || builtinName(info, call) != "append" || len(call.Args) != 2 || call.Ellipsis.IsValid() || exprStr(call.Args[0]) != exprStr(as.Lhs[0]) {
+			return "", false
+		}
+		return exprStr(as.Lhs[0]), true
+	}
+	check := func(list []ast.Stmt) {
+		for i, st := range list {
 			as, ok := st.(*ast.AssignStmt)
 			if !ok || len(as.Lhs) != 1 || len(as.Rhs) != 1 {
 				continue
@@ -308,36 +316,41 @@ func indexPairing(info *types.Info, fn *FuncInfo) (int, string, token.Pos) {
 				continue
 			}
 			n++
-			// previous statement: U = append(U, x)
-			if i == 0 {
-				bad, badPos = "index stored without a preceding append in the same block", as.Pos()
-				continue
-			}
-			prev, ok := blk.List[i-1].(*ast.AssignStmt)
-			if !ok || len(prev.Lhs) != 1 || len(prev.Rhs) != 1 {
-				bad, badPos = "index stored without a directly preceding append", as.Pos()
-				continue
-			}
-			call, ok := unparen(prev.Rhs[0]).(*ast.CallExpr)
-			if !ok || builtinName(info, call) != "append" || len(call.Args) != 2 || exprStr(call.Args[0]) != exprStr(prev.Lhs[0]) {
-				bad, badPos = "index stored without a directly preceding append", as.Pos()
-				continue
-			}
-			u := exprStr(prev.Lhs[0])
-			be, ok := unparen(as.Rhs[0]).(*ast.BinaryExpr)
-			one, isC := int64(0), false
-			if ok {
-				one, isC = constInt(info, be.Y)
-			}
-			lenOK := false
-			if ok && be.Op == token.SUB && isC && one == 1 {
-				if lc, ok := unparen(be.X).(*ast.CallExpr); ok && builtinName(info, lc) == "len" && exprStr(lc.Args[0]) == u {
-					lenOK = true
+			var u string
+			var want int64
+			found := false
+			if i > 0 {
+				if x, ok := appendOf(list[i-1]); ok {
+					u, want, found = x, -1, true
 				}
 			}
-			if !lenOK {
-				bad, badPos = "the index recorded for a newly appended element is "+exprStr(as.Rhs[0])+", not len("+u+") − 1 (its position)", as.Pos()
+			if !found && i+1 < len(list) {
+				if x, ok := appendOf(list[i+1]); ok {
+					u, want, found = x, 0, true
+				}
 			}
+			if !found {
+				bad, badPos = "index stored without an adjacent append of the element it refers to", as.Pos()
+				continue
+			}
+			terms, k := linearForm(info, as.Rhs[0])
+			if !(len(terms) == 1 && terms["len("+u+")"] == 1 && k == want) {
+				pos := "len(" + u + ") − 1 (after the append)"
+				if want == 0 {
+					pos = "len(" + u + ") (before the append)"
+				}
+				bad, badPos = "the index recorded for a newly appended element is "+exprStr(as.Rhs[0])+", not "+pos+": its position", as.Pos()
+			}
+		}
+	}
+	ast.Inspect(fn.Body(), func(nd ast.Node) bool {
+		switch b := nd.(type) {
+		case *ast.BlockStmt:
+			check(b.List)
+		case *ast.CaseClause:
+			check(b.Body)
+		case *ast.CommClause:
+			check(b.Body)
 		}
 		return true
 	})
@@ -508,4 +521,142 @@ func ruleTruncateCounts(c *Ctx, ix *PkgIndex, rule, short string) {
 	})
 	c.Analysed(fn)
 	c.Check(bad == "" && nLoops >= 1, rule, key, at(ix.M, fn.Pos()), itoa(nLoops)+" scanning loop(s), "+itoa(len(incs))+" counting site(s)", bad)
+}
+
+// ---- effects through helpers --------------------------------------------------------------------------------------------
+
+// declByObj returns the declared (non-literal) function of this package for a resolved callee, or nil.
+func (ix *PkgIndex) declByObj(fn *types.Func) *FuncInfo {
+	if fn == nil {
+		return nil
+	}
+	for _, f := range ix.Funcs {
+		if f.Obj != nil && f.Obj.Origin() == fn.Origin() {
+			return f
+		}
+	}
+	return nil
+}
+
+// hasEffect: does fn's own body (literals excluded) perform the effect directly or through static calls to declared
+// functions of the package, up to the given depth?
+func (ix *PkgIndex) hasEffect(fn *FuncInfo, pred func(ast.Node) bool, depth int) bool {
+	hit := false
+	inspectNoLit(fn.Body(), func(n ast.Node) bool {
+		if hit {
+			return false
+		}
+		if pred(n) {
+			hit = true
+			return false
+		}
+		if call, ok := n.(*ast.CallExpr); ok && depth > 0 {
+			if h := ix.declByObj(callee(fn.Info(), call)); h != nil && h != fn && ix.hasEffect(h, pred, depth-1) {
+				hit = true
+				return false
+			}
+		}
+		return true
+	})
+	return hit
+}
+
+// effectNodes returns the vertices of fn's graph that perform the effect, directly or by calling a declared function of the
+// package that performs it (depth ≤ 2); via[x] is that function for indirect vertices.
+func (ix *PkgIndex) effectNodes(fn *FuncInfo, pred func(ast.Node) bool) (nodes []*GNode, via map[*GNode]*FuncInfo) {
+	g := ix.FG(fn)
+	via = map[*GNode]*FuncInfo{}
+	seen := map[*GNode]bool{}
+	for _, x := range g.Match(func(n ast.Node) bool {
+		if pred(n) {
+			return true
+		}
+		if call, ok := n.(*ast.CallExpr); ok {
+			if h := ix.declByObj(callee(fn.Info(), call)); h != nil && h != fn && ix.hasEffect(h, pred, 1) {
+				return true
+			}
+		}
+		return false
+	}) {
+		if seen[x] {
+			continue
+		}
+		seen[x] = true
+		nodes = append(nodes, x)
+		// direct?
+		direct := false
+		inspectNoLit(x.N, func(n ast.Node) bool {
+			if pred(n) {
+				direct = true
+			}
+			return true
+		})
+		if !direct {
+			inspectNoLit(x.N, func(n ast.Node) bool {
+				if call, ok := n.(*ast.CallExpr); ok {
+					if h := ix.declByObj(callee(fn.Info(), call)); h != nil && h != fn && ix.hasEffect(h, pred, 1) {
+						via[x] = h
+					}
+				}
+				return true
+			})
+		}
+	}
+	return nodes, via
+}
+
+// orderedEffects: in fn, each effect of the chain occurs at exactly one vertex and is dominated by the previous one; when two
+// consecutive effects sit in the same helper call the order is required inside the helper.
+func (ix *PkgIndex) orderedEffects(fn *FuncInfo, preds []func(ast.Node) bool, names []string, depth int) (bool, string) {
+	g := ix.FG(fn)
+	var prev []*GNode
+	var prevVia map[*GNode]*FuncInfo
+	for i, p := range preds {
+		ns, via := ix.effectNodes(fn, p)
+		if len(ns) != 1 {
+			return false, names[i] + " found " + itoa(len(ns)) + " times in " + fn.Name
+		}
+		if i > 0 {
+			if ns[0] == prev[0] {
+				h := via[ns[0]]
+				if h == nil || prevVia[prev[0]] != h || depth <= 0 {
+					return false, names[i] + " and " + names[i-1] + " in one statement"
+				}
+				if ok, why := ix.orderedEffects(h, preds[i-1:i+1], names[i-1:i+1], depth-1); !ok {
+					return false, why
+				}
+			} else if d, _ := g.DominatedByNodes(ns[0], toSet(prev)); !d {
+				return false, names[i] + " is not preceded by " + names[i-1]
+			}
+		}
+		prev, prevVia = ns, via
+	}
+	return true, ""
+}
+
+// mustEffectCall: vertex predicate "performs the effect on every path": the vertex matches pred directly, or it calls a
+// declared function of the package whose every entry→exit path passes a vertex that does (one level).
+func (ix *PkgIndex) mustEffect(fn *FuncInfo, pred func(ast.Node) bool) func(n ast.Node) bool {
+	cache := map[*FuncInfo]bool{}
+	always := func(h *FuncInfo) bool {
+		if v, ok := cache[h]; ok {
+			return v
+		}
+		g := ix.FG(h)
+		through := toSet(g.Match(pred))
+		seen, _ := g.ReachFromEntry(func(x *GNode) bool { return through[x] }, nil)
+		cache[h] = len(through) > 0 && !seen[g.Exit]
+		return cache[h]
+	}
+	return func(n ast.Node) bool {
+		if pred(n) {
+			return true
+		}
+		if call, ok := n.(*ast.CallExpr); ok {
+			if h := ix.declByObj(callee(fn.Info(), call)); h != nil && h != fn && always(h) {
+				return true
+			}
+		}
+		return false
+	}
 }
